@@ -89,8 +89,9 @@ structure Op where
   newName : Str           -- row.new_name ("" = not given)
   kind : OpKind
 
-/-- the sheets the reader can deliver, as parsed row lists (duplicate IDs possible) -/
-abbrev Env := Dict Str (List Row)
+/-- the sheets the reader can deliver (`_get_sheet_or_die(name).table`), as parsed row lists
+(duplicate IDs possible); `none` = no workbook has the sheet -/
+abbrev Env := Str → Option (List Row)
 
 structure St where
   data : Dict Str Sheet := []     -- self.data_sheets
@@ -98,7 +99,7 @@ structure St where
 
 /-- `_get_new_data_sheet`: `OrderedDict((row.ID, row) for row in data_rows)`; NOT registered -/
 def getNew (env : Env) (n : Str) : Except Err Sheet :=
-  match env.get n with
+  match env n with
   | none => throw (.sheetNotFound n)
   | some rows => pure (Dict.ofList rows)
 
